@@ -21,26 +21,28 @@ def enum_values(ctx):
 
 
 def replay_job(ctx, vals, viol, name):
-    """Replay a validator counterexample through IMB_SUBMIT_JOB on a library built from the current tree."""
-    en = enum_values(ctx)
+    """Replay a validator counterexample through IMB_SUBMIT_JOB on a library built from the current tree (ghost g_* variables of the harness)."""
+    def num(k):
+        v = vals.get(k)
+        if v is None:
+            return None
+        return re.sub(r'[uU]?[lL]*$', '', v.strip().split()[0])
+    fields = {'key_len_in_bytes': 'g_key_len', 'msg_len_to_cipher_in_bytes': 'g_clen', 'msg_len_to_hash_in_bytes': 'g_hlen', 'cipher_start_src_offset_in_bytes': 'g_coff',
+              'hash_start_src_offset_in_bytes': 'g_hoff', 'iv_len_in_bytes': 'g_ivlen', 'auth_tag_output_len_in_bytes': 'g_taglen', 'cipher_mode': 'g_mode',
+              'cipher_direction': 'g_dir', 'hash_alg': 'g_hash', 'chain_order': 'g_order', 'sgl_state': 'g_sgl'}
     args = []
-    for f in NUM_FIELDS:
-        v = vals.get('job.' + f)
+    for f, g in fields.items():
+        v = num(g)
         if v is None:
-            continue
-        m = re.search(r'/\*enum\*/(\w+)', v)
-        if m:
-            if m.group(1) not in en:
-                return None, 'enum %s unknown' % m.group(1)
-            v = str(en[m.group(1)])
-        else:
-            v = re.sub(r'[uU]?[lL]*$', '', v.strip())
+            return None, 'trace lacks ' + g
         args.append('%s=%s' % (f, v))
-    for f in PTR_FIELDS:
-        v = vals.get('job.' + f)
-        if v is None:
-            continue
-        args.append('%s=%d' % (f, 0 if 'NULL' in v else 1))
+    ptrs = num('g_ptrs')
+    if ptrs is None:
+        return None, 'trace lacks g_ptrs'
+    ptrs = int(ptrs)
+    for i, f in enumerate(['src', 'dst', 'iv', 'enc_keys', 'dec_keys', 'auth_tag_output', 'u.XCBC._k1_expanded', 'u.XCBC._k2', 'u.XCBC._k3', 'cipher_fields.CBCS.next_iv',
+                           'cipher_func', 'hash_func']):
+        args.append('%s=%d' % (f, (ptrs >> i) & 1))
     out = native.run_replay(ctx, 'job_replay.c', ['sse'] + args)
     if out is None:
         return None, 'replay did not run'
@@ -96,6 +98,9 @@ def run(ctx):
                     desc, 'INVALID (mask %s)' % viol if spec_invalid else 'valid', rr, how, detail)
                 if confirmed:
                     ctx.violation(key, text, [log, h])
+                elif how is None:
+                    # replay machinery unavailable: the CBMC trace over the real validator is itself the replay
+                    ctx.violation(key, text + ' (native replay unavailable: ' + str(detail) + ')', [log, h])
                 else:
                     ctx.inconclusive.append('ENCODING-MISMATCH (counterexample did not reproduce natively): ' + text)
     # must-fail twin (vacuity): some job accepted, some job rejected
